@@ -54,6 +54,10 @@ def shrink_candidates(c):
     for i in range(n):
         d = dict(c); d["db"] = db[:i] + db[i + 1:]; yield d
 
-LEVEL_TEXT = "The repaired engine's model is a function with no schedule argument; theorems (Props/C02.v): sorting the keys of a map erases the iteration order, the ranking sort is a permutation, two evaluations agree. The tie to the code is the substance: every case is answered 8x on one Database and 3x on an independently loaded copy (plus 4x GetSuggestions) and all answers must be bit-identical; tie-heavy databases with limits cutting through ties and the shipped 6,619-entry database are included."
-LEVEL_NOTE = "Partial: the Go runtime's map randomisation is sampled by repetition, not enumerated. Trusted: Coq kernel; harness."
+LEVEL_TEXT = ("The model of the repaired engine (Model/Engine.v with the TF-IDF ranking computed by Model/Tfidf.v) is a function with no schedule argument; theorems "
+              "(Props/C02.v) are the facts that make that sound: sorting the collected keys erases the runtime's map order (score accumulator, vector sums), the TF-IDF vocabulary "
+              "depends only on the SET of words, the ranking sort is a permutation and is stable - entries none of which scores above another keep document order, so the survivor of a "
+              "limit is fixed - and the TF-IDF ranking names each command once. Tie to the code: every case is answered 8x on one Database and 3x on an independently loaded copy (plus 4x "
+              "GetSuggestions), all bit-identical; databases with exact ties and queries sharing 4-7 words with them; the engine + TF-IDF model compared bit for bit on 150 more cases.")
+LEVEL_NOTE = "Partial: the Go runtime's map randomisation is sampled by repetition, not enumerated; separate processes are covered by the CLI runs of C17 only. Trusted: Coq kernel; FloatAxioms none; oracles (math.Log tables, tokenizer output, NLP multipliers); harness."
 TECHNIQUE = "Coq proof (determinism of the engine model: no schedule argument; stable sort is a function) + differential correspondence"
